@@ -40,7 +40,7 @@ UNADVERTISED = ["zz_other_class_attr", "_private", "__dunder__", "extras_of_othe
 def GATES(tier):
     return [("calls_judged", 3000), ("methods_checked", 300), ("mode:single", 500), ("mode:positional", 100), ("mode:kwonly_positional_rejected", 100), ("mode:default", 200),
             ("mode:pair", 300), ("mode:unadvertised", 300), ("nested_keyword_sets_compared", 100), ("kind:__init__", 20), ("kind:element", 50), ("kind:scalar", 100), ("kind:toplevel", 30),
-            ("init_false_attrs_seen", 3), ("overflow_classes", 2), ("mode:unadvertised_if_false", 100), ("behavioural_probes", 20), ("directed_cases", 20), ("overflow_sequences_steps", 10)]
+            ("init_false_attrs_seen", 3), ("overflow_classes", 2), ("mode:unadvertised_if_false", 100), ("behavioural_probes", 20), ("unchanged_with_keyword_probes", 5), ("directed_cases", 20), ("overflow_sequences_steps", 10)]
 
 
 class Spy:
@@ -413,6 +413,28 @@ def behavioural_probes(ctx, world, decl, cname, case):
             if not ok:
                 ctx.violation("advertised_parameter_reaches_behaviour", f"{cname}: element helper on names=['P', 'Q'] with {label}: got {got!r}, expected {want!r}",
                               features={"method": "element", "mode": "behavioural_flag", "flag": label.split("=")[0]}, case=case + [label])
+    # the pair (new value, nested-attribute keyword) with the new value given as UNCHANGED: the keyword still applies
+    from spec_classes import UNCHANGED
+
+    for n, (_o, a) in attrs.items():
+        pairs = []
+        if a.info.kind == "spec" and a.init and n in inst.__dict__ and "v" in inst.__dict__[n].__dict__:
+            pairs += [(f"{verb}_{n}(UNCHANGED, v=41)", lambda verb=verb, n=n: getattr(getattr(inst, f"{verb}_{n}")(UNCHANGED, v=41), n).v) for verb in ("update", "with")]
+        if a.info.kind == "list" and a.info.elem in ("leaf", "kleaf") and len(inst.__dict__.get(n, [])) > 0 and "v" in inst.__dict__[n][0].__dict__:
+            sg = a.info.singular
+            pairs.append((f"update_{sg}(0, UNCHANGED, v=41)", lambda n=n, sg=sg: getattr(getattr(inst, f"update_{sg}")(0, UNCHANGED, _by_index=True, v=41), n)[0].v))
+        for label, fn in pairs:
+            ctx.count("behavioural_probes")
+            ctx.count("unchanged_with_keyword_probes")
+            ctx.count("calls_judged")
+            try:
+                got = fn()
+            except Exception as e:
+                got = f"raised {type(e).__name__}: {e}"
+            ctx.sig("behavioural_unchanged", label.split("(")[0].split("_")[0], got == 41)
+            if got != 41:
+                ctx.violation("advertised_parameter_reaches_behaviour", f"{cname}.{label}: the nested v is {got!r} afterwards, the keyword given was 41",
+                              features={"method": label.split("_")[0], "mode": "behavioural_unchanged"}, case=case + [label])
     for label, fn, expected in probes:
         calls.clear()
         ctx.count("behavioural_probes")
